@@ -203,7 +203,11 @@ impl<'a> ArrayBytes<'a> {
     pub fn is_fill_value(&self, fill_value: &FillValue) -> bool {
         match self {
             Self::Fixed(bytes) => fill_value.equals_all(bytes),
-            Self::Variable(bytes, _offsets) => fill_value.equals_all(bytes),
+            // Every element must equal the fill value (comparing the concatenated bytes alone
+            // would accept e.g. ["abab", ""] for the fill value "ab")
+            Self::Variable(bytes, offsets) => offsets
+                .windows(2)
+                .all(|w| bytes.get(w[0]..w[1]) == Some(fill_value.as_ne_bytes())),
         }
     }
 
